@@ -51,6 +51,32 @@ theorem c06_truncation_gives_record_prefix (crc : List Nat → Nat) (dec : List 
         simp; omega
     rw [hw ps k hk', List.take_length]
 
+theorem encodeAll_append (crc : List Nat → Nat) (as bs : List (List Nat)) :
+    encodeAll crc (as ++ bs) = encodeAll crc as ++ encodeAll crc bs := by
+  simp [encodeAll]
+
+/-- F (crash, reopen, keep writing): the log is cut at **any** byte length `k`, the database is
+reopened (which cuts the file at its last complete record) and goes on appending `pb`: recovery
+then returns the records that were completely written before the crash followed by **all** of
+`pb` — nothing written after the crash is lost behind a torn frame. -/
+theorem c06_append_after_crash_recovered (crc : List Nat → Nat) (dec : List Nat → Bool)
+    (pa pb : List (List Nat)) (ha : ∀ p ∈ pa, Good crc dec p) (hb : ∀ p ∈ pb, Good crc dec p) (k : Nat) :
+    let bytes := reopenBytes crc dec ((encodeAll crc pa).take k) ++ encodeAll crc pb
+    parseFile crc dec bytes.length bytes = pa.take (wholeFrames k pa) ++ pb := by
+  intro bytes
+  have h1 : reopenBytes crc dec ((encodeAll crc pa).take k) = encodeAll crc (pa.take (wholeFrames k pa)) := by
+    unfold reopenBytes
+    rw [c06_truncation_gives_record_prefix crc dec pa ha k]
+  have hb' : bytes = encodeAll crc (pa.take (wholeFrames k pa) ++ pb) := by
+    show reopenBytes crc dec ((encodeAll crc pa).take k) ++ encodeAll crc pb = _
+    rw [h1, encodeAll_append]
+  rw [hb']
+  apply c06_parse_encode
+  intro p hp
+  rcases List.mem_append.mp hp with h | h
+  · exact ha p (List.mem_of_mem_take h)
+  · exact hb p h
+
 /-- F: everything whose frame lies before the cut survives (at least the synced part). -/
 theorem c06_synced_prefix_survives (crc : List Nat → Nat) (dec : List Nat → Bool)
     (pre post : List (List Nat)) (hg : ∀ p ∈ pre ++ post, Good crc dec p) (k : Nat)
